@@ -387,38 +387,3 @@ func Has(e Expr, pred func(Expr) bool) bool {
 	})
 	return found
 }
-
-// Retarget returns a copy of e in which column references through alias from
-// go through alias to (used to render a statement for a twin table).
-func Retarget(e Expr, from, to string) Expr {
-	switch n := e.(type) {
-	case nil:
-		return nil
-	case *Col:
-		if n.Alias == from {
-			return &Col{Alias: to, C: n.C}
-		}
-		return n
-	case *Cmp:
-		return &Cmp{Op: n.Op, L: Retarget(n.L, from, to), R: Retarget(n.R, from, to)}
-	case *IsNull:
-		return &IsNull{E: Retarget(n.E, from, to), Not: n.Not}
-	case *Bin:
-		return &Bin{Op: n.Op, L: Retarget(n.L, from, to), R: Retarget(n.R, from, to)}
-	case *Not:
-		return &Not{E: Retarget(n.E, from, to)}
-	case *InList:
-		vs := make([]Expr, len(n.Vals))
-		for i, v := range n.Vals {
-			vs[i] = Retarget(v, from, to)
-		}
-		return &InList{E: Retarget(n.E, from, to), Vals: vs, Not: n.Not}
-	case *Like:
-		return &Like{E: Retarget(n.E, from, to), Pattern: n.Pattern, Not: n.Not, ILike: n.ILike}
-	case *Between:
-		return &Between{E: Retarget(n.E, from, to), Lo: Retarget(n.Lo, from, to), Hi: Retarget(n.Hi, from, to)}
-	case *Arith:
-		return &Arith{Op: n.Op, L: Retarget(n.L, from, to), R: Retarget(n.R, from, to)}
-	}
-	return e
-}
